@@ -107,7 +107,9 @@ struct MTx {
     orch: Option<Ob>,
     iron: Option<Ob>,
 }
-type Coin = (Zatoshis, Script);
+/// a coin being spent: value, scriptPubKey, and the script code a signer would use for it
+/// (equal to the scriptPubKey for P2PKH-like coins, the redeem script for P2SH coins)
+type Coin = (Zatoshis, Script, Script);
 
 fn script(v: Vec<u8>) -> Script {
     Script(zcash_script::script::Code(v))
@@ -345,7 +347,7 @@ fn coq_tx_any(t: &MTx) -> String {
     coq_tx(&u)
 }
 fn coq_coins(c: &[Coin]) -> String {
-    list(c.iter().map(|(v, s)| format!("({}, {})", u64::from(*v), h(script_bytes(s)))))
+    list(c.iter().map(|(v, s, _)| format!("({}, {})", u64::from(*v), h(script_bytes(s)))))
 }
 
 // ---------------------------------------------------------------------------------------------
@@ -358,6 +360,7 @@ struct Req {
     idx: usize,
     value: Zatoshis,
     spk: Script,
+    code: Script,
 }
 struct Obs {
     txid: [u8; 32],
@@ -403,7 +406,7 @@ fn observe(t: &MTx, coins: &[Coin], reqs: &[Req]) -> Obs {
         .map(|r| {
             let b = sd.transparent_bundle()?;
             let ht = SighashType::parse(r.ht)?;
-            let si = zcash_transparent::sighash::SignableInput::from_parts(b, ht, r.idx, &r.spk, &r.spk, r.value).ok()?;
+            let si = zcash_transparent::sighash::SignableInput::from_parts(b, ht, r.idx, &r.code, &r.spk, r.value).ok()?;
             catch(|| *signature_hash(&sd, &SignableInput::Transparent(si), &parts).as_ref())
         })
         .collect();
@@ -414,11 +417,12 @@ fn coq_sigs(reqs: &[Req], o: &Obs) -> String {
     list(reqs.iter().zip(o.sigs.iter()).filter_map(|(r, d)| {
         d.map(|d| {
             format!(
-                "SG {} {}%nat {} {} {}",
+                "SG {} {}%nat {} {} {} {}",
                 r.ht,
                 r.idx,
                 u64::from(r.value),
                 h(script_bytes(&r.spk)),
+                h(script_bytes(&r.code)),
                 h(&d)
             )
         })
@@ -540,6 +544,35 @@ impl Gen {
             1 => u32::MAX,
             2 => 1,
             _ => self.rng.u64() as u32,
+        }
+    }
+    /// P2SH-shaped (script code = redeem script, different from the scriptPubKey), P2PKH-shaped
+    /// (script code = scriptPubKey) or arbitrary, equal or different.
+    fn coin(&mut self) -> Coin {
+        let v = self.zat();
+        match self.rng.below(5) {
+            0 | 1 => {
+                let mut spk = vec![0xa9, 0x14];
+                spk.extend(self.rng.bytes(20));
+                spk.push(0x87);
+                let code = self.script(false);
+                (v, script(spk), code)
+            }
+            2 => {
+                let mut spk = vec![0x76, 0xa9, 0x14];
+                spk.extend(self.rng.bytes(20));
+                spk.extend([0x88, 0xac]);
+                (v, script(spk.clone()), script(spk))
+            }
+            3 => {
+                let s = self.script(false);
+                (v, s.clone(), s)
+            }
+            _ => {
+                let a = self.script(false);
+                let b = self.script(false);
+                (v, a, b)
+            }
         }
     }
     fn txin(&mut self, big: bool) -> TxIn<tb::Authorized> {
@@ -674,7 +707,7 @@ impl Gen {
         };
         let version = if v6 { TxVersion::V6 } else { TxVersion::V5 };
         let t = MTx { version, branch, lock, expiry, transp, sap, orch, iron };
-        let coins = (0..t.n_in()).map(|_| (self.zat(), self.script(false))).collect();
+        let coins = (0..t.n_in()).map(|_| self.coin()).collect();
         (t, coins)
     }
 }
@@ -927,10 +960,10 @@ fn mutate(g: &mut Gen, t: &MTx, coins: &[Coin], field: u32) -> Option<(MTx, Vec<
     Some((m, c, which))
 }
 
-const TX_FIELDS: [u32; 63] = [
+const TX_FIELDS: [u32; 64] = [
     1, 2, 3, 4, 10, 11, 12, 13, 20, 21, 30, 31, 32, 33, 34, 35, 40, 41, 42, 43, 44, 45, 46, 47, 48, 49, 50, 51, 52,
     53, 54, 55, 56, 57, 58, 59, 60, 61, 62, 63, 64, 70, 71, 72, 73, 74, 75, 76, 77, 78, 79, 80, 81, 82, 83, 84, 90,
-    91, 92, 93, 94, 95, 96,
+    91, 92, 93, 94, 95, 96, 97,
 ];
 
 fn all_reqs(t: &MTx, coins: &[Coin], idxs: &[usize]) -> Vec<Req> {
@@ -938,7 +971,7 @@ fn all_reqs(t: &MTx, coins: &[Coin], idxs: &[usize]) -> Vec<Req> {
     for &i in idxs {
         if i < t.n_in() {
             for ht in HASH_TYPES {
-                v.push(Req { ht, idx: i, value: coins[i].0, spk: coins[i].1.clone() });
+                v.push(Req { ht, idx: i, value: coins[i].0, spk: coins[i].1.clone(), code: coins[i].2.clone() });
             }
         }
     }
@@ -1017,6 +1050,13 @@ fn emit_mut(g: &mut Gen, t: &MTx, coins: &[Coin], field: u32) -> bool {
                     x.spk = mutate_script(&x.spk, &mut g.rng);
                 }
             }
+            97 => {
+                // the script code: not covered by a v5/v6 signature hash
+                c[idx].2 = mutate_script(&c[idx].2, &mut g.rng);
+                for x in r.iter_mut() {
+                    x.code = c[idx].2.clone();
+                }
+            }
             _ => {
                 // hash type rotation / other index
                 if g.rng.bool() || n_in < 2 {
@@ -1091,7 +1131,7 @@ fn v4_sighashes(t: &MTx, coins: &[Coin], idx: usize) -> Vec<(u32, Option<[u8; 32
                 b,
                 SighashType::parse(ht).unwrap(),
                 idx,
-                &coins[idx].1,
+                &coins[idx].2,
                 &coins[idx].1,
                 coins[idx].0,
             )
@@ -1104,13 +1144,28 @@ fn v4_sighashes(t: &MTx, coins: &[Coin], idx: usize) -> Vec<(u32, Option<[u8; 32
 
 fn emit_v4_mut(g: &mut Gen, t: &MTx, coins: &[Coin], field: u32, own: bool) -> bool {
     let n_in = t.n_in();
-    let (m, c, which) = match mutate(g, t, coins, field) {
-        Some(x) => x,
-        None => return false,
+    let (m, c, which) = if field >= 90 {
+        // signing context of input `which`: 94 value, 95 scriptPubKey, 97 script code
+        if n_in == 0 {
+            return false;
+        }
+        let k = g.rng.below(n_in as u64) as usize;
+        let mut c = coins.to_vec();
+        match field {
+            94 => c[k].0 = bump_zat(c[k].0),
+            95 => c[k].1 = mutate_script(&c[k].1, &mut g.rng),
+            _ => c[k].2 = mutate_script(&c[k].2, &mut g.rng),
+        }
+        (t.clone(), c, k)
+    } else {
+        match mutate(g, t, coins, field) {
+            Some(x) => x,
+            None => return false,
+        }
     };
     // sign the input/output position that was mutated (`own`) or another one
     let idx = if n_in == 0 { 0 } else if own { which.min(n_in - 1) } else { (which + 1) % n_in };
-    if coq_tx_any(t) == coq_tx_any(&m) {
+    if field < 90 && coq_tx_any(t) == coq_tx_any(&m) {
         return false;
     }
     let tx1 = t.authorized().freeze().unwrap();
@@ -1185,7 +1240,7 @@ fn main() {
                 .amounts
                 .iter()
                 .zip(tv.script_pubkeys.iter())
-                .map(|(v, s)| (Zatoshis::from_nonnegative_i64(*v).unwrap(), script(s.clone())))
+                .map(|(v, s)| (Zatoshis::from_nonnegative_i64(*v).unwrap(), script(s.clone()), script(s.clone())))
                 .collect();
             let idxs: Vec<usize> = tv.transparent_input.iter().map(|i| *i as usize).collect();
             let reqs = all_reqs(&t, &coins, &idxs);
@@ -1217,7 +1272,7 @@ fn main() {
                     reqs.extend(all_reqs(&t, &coins, &[i]));
                 } else {
                     let ht = *g.rng.pick(&HASH_TYPES);
-                    reqs.push(Req { ht, idx: i, value: coins[i].0, spk: coins[i].1.clone() });
+                    reqs.push(Req { ht, idx: i, value: coins[i].0, spk: coins[i].1.clone(), code: coins[i].2.clone() });
                 }
             }
             // the SignableInput's own value/script need not repeat the coin list
@@ -1225,7 +1280,8 @@ fn main() {
                 let ht = *g.rng.pick(&HASH_TYPES);
                 let v = g.zat();
                 let s = g.script(false);
-                reqs.push(Req { ht, idx: full, value: v, spk: s });
+                let c = g.script(false);
+                reqs.push(Req { ht, idx: full, value: v, spk: s, code: c });
             }
         }
         emit_ctx(if v6 { 3 } else { 2 }, &t, &coins, &reqs);
@@ -1257,7 +1313,7 @@ fn main() {
             if size > if thorough { 24 } else { 8 } {
                 continue;
             }
-            let coins: Vec<Coin> = (0..t.n_in()).map(|_| (g.zat(), g.script(false))).collect();
+            let coins: Vec<Coin> = (0..t.n_in()).map(|_| g.coin()).collect();
             let reqs = if t.n_in() > 0 { all_reqs(&t, &coins, &[t.n_in() - 1]) } else { vec![] };
             emit_ctx(4, &t, &coins, &reqs);
             g.bump("tx_arb");
@@ -1377,9 +1433,9 @@ fn main() {
             t.branch = BranchId::Overwinter;
             t.sap = None;
         }
-        for f in [1u32, 2, 10, 11, 12, 13, 20, 21, 30, 31, 32, 33, 34, 35, 40, 41, 42, 43, 44, 45, 46, 47, 48, 49] {
+        for f in [1u32, 2, 10, 11, 12, 13, 20, 21, 30, 31, 32, 33, 34, 35, 40, 41, 42, 43, 44, 45, 46, 47, 48, 49, 94, 95, 97] {
             for own in [true, false] {
-                if (own || (10..=21).contains(&f)) && emit_v4_mut(&mut g, &t, &coins, f, own) {
+                if (own || (10..=21).contains(&f) || f >= 90) && emit_v4_mut(&mut g, &t, &coins, f, own) {
                     n_cases += 1;
                 }
             }
